@@ -20,6 +20,9 @@ def run_calls(chk, rng, replay, n_quick, n_thorough):
     else:
         n = n_quick if chk.tier == "quick" else n_thorough
         cases = [subgen.gen(rng, subgen.KINDS[i % 5]) for i in range(n)]
+        # a stratum for the rarest path: the boundary-improvement phase of the linearly constrained solver making more than
+        # one rotation (subgen.gen_improve)
+        cases += [subgen.gen_improve(rng) for _ in range(n)]
     out, reqs = [], []
     crashed = []
     for c in cases:
